@@ -110,25 +110,26 @@ theorem T6_6_witness_passes_checks (hs : H.Sound) (L : Nat) (view : KVL VH) (hc 
 
 /-- T6.7 **the specified witness replays the session**: `verify_update` over the witnessed paths and writes
 answers `ok` with the root of `kvApply view writes` — the root the store reports after the session (C02) —
-for every canonical view, every read set and every non-empty batch with pairwise distinct keys. -/
+for every canonical view, every read set and every batch with pairwise distinct keys (for an empty batch no
+path carries writes and `verify_update` of no paths answers the base root). -/
 theorem T6_7_witness_replays (hs : H.Sound) (L : Nat) (view : KVL VH) (hc : Canon L 0 view)
     (hlen : ∀ kv ∈ view, kv.1.length = L) (reads : List Key) (writes : Writes VH)
     (hr : ∀ k ∈ reads, k.length = L) (hw : ∀ kw ∈ writes, kw.1.length = L)
-    (hd : writes.Pairwise (fun a b => a.1 ≠ b.1)) (hne : writes ≠ []) :
+    (hd : writes.Pairwise (fun a b => a.1 ≠ b.1)) :
     pathVerifyUpdate H L (nodeAt H L 0 view) (witnessUpdatesL H L view reads writes)
       = .ok (nodeAt H L 0 (kvApply view writes)) :=
-  witnessUpdates_replay H L view reads writes hs hc hlen hr hw hd hne
+  witnessUpdates_replay H L view reads writes hs hc hlen hr hw hd
 
 /-- T6.7 at the key length of the code, on `witnessSpec` itself (`witnessUpdates` is built from `witnessSpec`). -/
 theorem T6_7_replay_256 (hs : H.Sound) (view : KVL VH) (hc : Canon 256 0 view)
     (hlen : ∀ kv ∈ view, kv.1.length = 256) (reads : List Key) (writes : Writes VH)
     (hr : ∀ k ∈ reads, k.length = 256) (hw : ∀ kw ∈ writes, kw.1.length = 256)
-    (hd : writes.Pairwise (fun a b => a.1 ≠ b.1)) (hne : writes ≠ []) :
+    (hd : writes.Pairwise (fun a b => a.1 ≠ b.1)) :
     checkPaths (nodeAt H 256 0 view) none (witnessUpdates H view reads writes) = none ∧
     pathVerifyUpdate H 256 (nodeAt H 256 0 view) (witnessUpdates H view reads writes)
       = .ok (nodeAt H 256 0 (kvApply view writes)) :=
   ⟨witnessUpdates_checkPaths H 256 view reads writes hs hc hlen hr hw,
-   witnessUpdates_replay H 256 view reads writes hs hc hlen hr hw hd hne⟩
+   witnessUpdates_replay H 256 view reads writes hs hc hlen hr hw hd⟩
 
 /-- the length-parametric definitions are the specification at 256 -/
 theorem T6_8_witnessSpecL_256 (view : KVL VH) (reads : List Key) (writes : Writes VH) :
@@ -153,7 +154,7 @@ example : (witnessUpdatesL TH 2 exS exReads exWrites).map (fun p => (p.inner.pat
 example : pathVerifyUpdate TH 2 (nodeAt TH 2 0 exS) (witnessUpdatesL TH 2 exS exReads exWrites)
     = .ok (nodeAt TH 2 0 [([false, false], 1), ([false, true], 8)]) := by
   have := T6_7_witness_replays TH TH_sound 2 exS (by simp [exS, Canon, side]) (by simp [exS]) exReads exWrites
-    (by simp [exReads]) (by simp [exWrites]) (by simp [exWrites]) (by simp [exWrites])
+    (by simp [exReads]) (by simp [exWrites]) (by simp [exWrites])
   rw [this]
   have : kvApply exS exWrites = [([false, false], 1), ([false, true], 8)] := by decide
   rw [this]
